@@ -28,6 +28,30 @@ pub enum Case {
     Sampled { program: Program, corruptions: Vec<Corruption> },
     /// the other CRC backend must produce the same files and verdicts
     Backends { seed: u64, n: u32 },
+    /// checksum validation and raw XML extraction of a file with another page size
+    /// (both take the page size from the file header), plus single-bit flips
+    PageSize { page_size: u32, xml_len: u16, flips: Vec<u32> },
+}
+
+/// Minimal file (header + XML) with an arbitrary page size, sealed by e57ref.
+pub fn odd_page_file(page_size: usize, xml_len: usize) -> (Vec<u8>, Vec<u8>) {
+    let pay = page_size - 4;
+    let mut xml = b"<?xml version=\"1.0\"?><e57Root type=\"Structure\">".to_vec();
+    while xml.len() + 10 < xml_len.max(60) {
+        xml.push(b' ');
+    }
+    xml.extend_from_slice(b"</e57Root>");
+    let mut log = vec![0u8; 48];
+    log.extend_from_slice(&xml);
+    let pages = (log.len() + pay - 1) / pay;
+    let phys = |l: usize| (l / pay) * page_size + l % pay;
+    log[0..8].copy_from_slice(b"ASTM-E57");
+    log[8..12].copy_from_slice(&1u32.to_le_bytes());
+    log[16..24].copy_from_slice(&((pages * page_size) as u64).to_le_bytes());
+    log[24..32].copy_from_slice(&(phys(48) as u64).to_le_bytes());
+    log[32..40].copy_from_slice(&(xml.len() as u64).to_le_bytes());
+    log[40..48].copy_from_slice(&(page_size as u64).to_le_bytes());
+    (e57ref::pages::page_with(&log, page_size), xml)
 }
 
 pub fn apply(bytes: &[u8], c: &Corruption) -> (Vec<u8>, bool) {
@@ -177,7 +201,8 @@ impl Check for C07 {
          bursts are always detected; after opening the altered file every read operation (XML, descriptors, raw + simple iteration of every cloud, \
          every blob), run twice on the same reader (second round after earlier failures), fails or returns exactly the baseline result (iterators: \
          a prefix of the baseline then an error). Both CRC backends: a second binary built with the crc32c cargo feature must produce a \
-         byte-identical digest of files and verdicts. evaluations = pages / corruption sets, executions = altered files. Non-trivial: alteration \
+         byte-identical digest of files and verdicts. Files with page sizes other than 1024 (60..65536, payload not a multiple of 4 included), \
+         sealed by e57ref: validate_crc accepts them and returns the page size, raw_xml returns the XML, and both react correctly to bit flips. evaluations = pages / corruption sets, executions = altered files. Non-trivial: alteration \
          inside a page that a later read operation touches (every page of these files is)."
             .into()
     }
@@ -199,6 +224,13 @@ impl Check for C07 {
             }
         }
         out.push(Case::Backends { seed: 7, n: t.pick(300, 5000) as u32 });
+        // other page sizes (validate_crc and raw_xml take the page size from the header)
+        for ps in [60u32, 64, 131, 512, 1021, 1022, 1023, 1025, 1028, 2048, 4096, 65536] {
+            for xl in [60u16, 200, 1500] {
+                let flips = (0..24u32).map(|k| k.wrapping_mul(2654435761) ^ ps).collect();
+                out.push(Case::PageSize { page_size: ps, xml_len: xl, flips });
+            }
+        }
         out
     }
     fn describe_fixed(t: Tier) -> Option<String> {
@@ -235,6 +267,51 @@ impl Check for C07 {
                     }
                     Ok(o) => v.infra(format!("crc32c-feature binary failed: {}", String::from_utf8_lossy(&o.stderr))),
                     Err(e) => v.infra(format!("cannot run {OTHER_BACKEND} (built by bin/check C07): {e}")),
+                }
+            }
+            Case::PageSize { page_size, xml_len, flips } => {
+                let ps = *page_size as usize;
+                v.nt("page_size_other_than_1024");
+                let (file, xml) = odd_page_file(ps, *xml_len as usize);
+                v.execs = 1 + flips.len() as u64;
+                let check = |bytes: &[u8], what: &str| -> Result<(), String> {
+                    let ok = e57ref::pages::verdicts_with(bytes, ps).iter().all(|x| *x);
+                    let val = guard(|| E57Reader::validate_crc(MemDev::with_data(bytes.to_vec()))).map_err(|p| format!("{what}: validate_crc panicked: {p}"))?;
+                    match (&val, ok) {
+                        (Ok(p), true) if *p == ps as u64 => {}
+                        (Err(_), false) => {}
+                        (Ok(_), true) => return Err(format!("{what}: validate_crc returned a wrong page size")),
+                        (Ok(_), false) => return Err(format!("{what}: validate_crc succeeds on a file with page size {ps} although a page is altered")),
+                        (Err(e), true) => return Err(format!("{what}: validate_crc rejects a correctly checksummed file with page size {ps}: {e}")),
+                    }
+                    let raw = guard(|| E57Reader::raw_xml(MemDev::with_data(bytes.to_vec()))).map_err(|p| format!("{what}: raw_xml panicked: {p}"))?;
+                    match raw {
+                        Ok(x) => {
+                            if x != xml {
+                                return Err(format!("{what}: raw_xml returns other bytes than the XML section (page size {ps})"));
+                            }
+                        }
+                        Err(e) => {
+                            if ok {
+                                return Err(format!("{what}: raw_xml fails on an intact file with page size {ps}: {e}"));
+                            }
+                        }
+                    }
+                    Ok(())
+                };
+                if let Err(e) = check(&file, "unaltered") {
+                    v.fail(e);
+                    return v;
+                }
+                for f in flips {
+                    let mut b = file.clone();
+                    // not the header fields themselves (page size / XML position are read unverified by these two functions)
+                    let pos = 48 * 8 + (*f as usize % (b.len() * 8 - 48 * 8));
+                    b[pos / 8] ^= 1 << (pos % 8);
+                    if let Err(e) = check(&b, &format!("bit {pos} flipped")) {
+                        v.fail(e);
+                        return v;
+                    }
                 }
             }
             Case::AllBits { program, page } => {
